@@ -20,6 +20,55 @@ MAINTENANCE = {
 }
 
 
+_dirty_re = re.compile(r'<<\s*"@@DIRTY",\s*(\d+)\s*>>')
+_nd_re = re.compile(r'<<\s*"@@NDIRTY",\s*(\d+)\s*>>')
+
+
+def _validate_one(args):
+    ctx, trace, timeout, idx = args
+    r = lib.tlc(ctx, TRACE[0], TRACE[1], workers=1, timeout=timeout, env={"VERIF_TRACE": trace}, tag="val_c09_%d" % idx, short=True)
+    m = lib._bad_re.search(r.out)
+    nd = _nd_re.search(r.out)
+    if not m or not nd:
+        return {"trace": trace, "ok": False, "error": r.tail(40), "rc": r.rc}
+    bad = [int(x) for x in re.findall(r"\d+", m.group(1))]
+    dirty = [int(x) for x in _dirty_re.findall(r.out)]
+    if len(dirty) != int(nd.group(1)):
+        return {"trace": trace, "ok": False, "error": "%d @@DIRTY lines printed, specification counted %s" % (len(dirty), nd.group(1)), "rc": r.rc}
+    shutil.rmtree(r.dir, ignore_errors=True)
+    return {"trace": trace, "ok": True, "bad": sorted(set(bad + dirty)), "consumed": int(m.group(2)), "total": int(m.group(3)),
+            "generated": r.generated}
+
+
+def _validate(ctx, traces, timeout=2400, count=True, par=None):
+    """lib.validate for CtxLifecycleTrace: the specification prints rejected Dirty lines one by one (<<"@@DIRTY", line>>)
+    instead of accumulating them in `bad`; both kinds of rejected lines are returned together."""
+    import concurrent.futures, time
+    traces = [t for t in traces if os.path.getsize(t) > 0]
+    if not traces:
+        raise lib.Infra("no traces to validate (dead driver)")
+    t0 = time.time()
+    with concurrent.futures.ThreadPoolExecutor(max_workers=par or min(lib.NCPU, len(traces))) as ex:
+        res = list(ex.map(_validate_one, [(ctx, t, timeout, _validate.n + i) for i, t in enumerate(traces)]))
+    _validate.n += len(traces)
+    out = []
+    for r in res:
+        if not r["ok"]:
+            raise lib.Infra("trace validation of %s with %s did not complete (rc=%s):\n%s" % (r["trace"], TRACE[0], r["rc"], r["error"]))
+        if r["consumed"] != r["total"]:
+            raise lib.Infra("trace validation consumed %d of %d lines of %s" % (r["consumed"], r["total"], r["trace"]))
+        out.append((r["trace"], r["bad"]))
+        if count:
+            ctx.cov["events_validated"] += r["total"]
+            ctx.cov["transitions"] += r["generated"]
+    lib.log("validated %d trace file(s) with %s in %.1fs; rejected lines: %d" %
+            (len(traces), TRACE[0], time.time() - t0, sum(len(b) for _, b in out)))
+    return out
+
+
+_validate.n = 0
+
+
 def _drive(ctx, drv, cases, out, chunks, env=None, timeout=1500):
     os.makedirs(out, exist_ok=True)
     for old in glob.glob(os.path.join(out, "trace_*.ndjson")):
@@ -62,7 +111,7 @@ def rerun(ctx, case_lines):
     with open(cf, "w") as f:
         f.write(json.dumps(_case_of(json.loads(case_lines[0]))) + "\n")
     traces, _ = _drive(ctx, drv, cf, d, 1)
-    r = lib.validate(ctx, TRACE[0], TRACE[1], traces, count=False)
+    r = _validate(ctx, traces, count=False)
     return bool(_unknown_bad(ctx, r[0][0], r[0][1]))
 
 
@@ -96,7 +145,7 @@ def _self_test(ctx, base, name, mutate):
     with open(p, "w") as f:
         for r in mut:
             f.write(json.dumps(r, separators=(",", ":")) + "\n")
-    res = lib.validate(ctx, TRACE[0], TRACE[1], [p], count=False)
+    res = _validate(ctx, [p], count=False)
     bad = _unknown_bad(ctx, p, res[0][1])
     ctx.cov["self_test"].append({"name": name, "rejected_lines": bad[:5], "rejected": bool(bad)})
     if not bad:
@@ -151,7 +200,7 @@ def run(ctx):
         raise lib.Infra("driver ran %d cases, TLC generated %d" % (ncases, n))
 
     # 4. validate every recorded line
-    res = lib.validate(ctx, TRACE[0], TRACE[1], traces, timeout=2400, par=chunks)
+    res = _validate(ctx, traces, timeout=2400, par=chunks)
 
     # 5. classify rejections
     unknown = collections.Counter()
